@@ -10,9 +10,8 @@ pub enum Fld {
     C(usize),
     /// a payload token
     P,
-    /// a *binding-position* slot that does not scope over anything (Bind<Slot>-like is not used); kept for future
-    #[allow(dead_code)]
-    X,
+    /// a slot occurrence preceded by k binders that scope over it (Bind<..<Slot>>); only used by the node model of C16
+    X(usize),
 }
 
 #[derive(Clone, Debug)]
@@ -89,7 +88,7 @@ impl Tm {
         let (mut si, mut ki) = (0, 0);
         for f in lang.sig(self.op) {
             match f {
-                Fld::S | Fld::X => {
+                Fld::S | Fld::X(_) => {
                     let s = self.slots[si];
                     si += 1;
                     if !bound.contains(&s) && !out.contains(&s) {
@@ -199,7 +198,7 @@ impl Tm {
         let (mut si, mut ki) = (0, 0);
         for f in s {
             match f {
-                Fld::S | Fld::X => {
+                Fld::S | Fld::X(_) => {
                     parts.push(names(self.slots[si]));
                     si += 1;
                 }
@@ -336,7 +335,7 @@ pub fn sx_to_tm(lang: &LangSig, x: &Sx, intern: &mut dyn FnMut(&str) -> Name) ->
             let mut pay = None;
             for f in o.fields {
                 match f {
-                    Fld::S | Fld::X => {
+                    Fld::S | Fld::X(_) => {
                         let Some(Sx::Slot(s)) = v.get(i) else { return Err(format!("expected slot in {op}")) };
                         slots.push(intern(s));
                         i += 1;
